@@ -9,6 +9,11 @@ CLAIMS = {
   text="Machine-checked proofs over the line state machine model (Delta.v): from any state a hunk's header and body lines extend the rendered history by exactly one item each, in input order, with only the marker column removed and tabs expanded (C01_hunk_once_in_order); the history is append-only along every execution of the unified view under one decidable side condition that every generated git diff satisfies (C01_history_append_only), hence each hunk appears once, contiguously, in the final output (C01_hunk_in_final_output). The hand-written model is tied to the code by running generated git diffs of every section kind x options through the real binary and comparing visible rows with the rendering of the extracted model's items; a model-free token oracle (each body line exactly once, in order, inside its file's section, text intact) is evaluated on the binary's output.",
   note="Trusted: Coq kernel; correspondence harness, item renderer (tools/gdiff.py) and terminal decoder; model scope = git two-way diffs with non-raw header styles (combined diffs / conflict regions / plain diff -u: black-box oracle only, see DESIGN). No axioms.",
   design="§6 C01"),
+ "C10": dict(
+  technique="Coq proof (section reset, output never read back: prepend commutes with every step, end-of-input mirrors the section boundary) + black-box concatenation law on all ordered pairs of section kinds + repeated-run determinism",
+  text="Machine-checked proofs over the line state machine model: a `diff ` line resets every per-file field to a function of that line alone, from any state (C10_section_reset); prepending anything to the written output commutes with every step, so earlier sections cannot influence later ones through the output (C10_never_reads_output); end of input flushes exactly what the next section boundary flushes (C10_eof_mirrors_boundary). On the real binary: stdout(A++B[++C]) = stdout(A)++stdout(B)[++stdout(C)] bytewise for every ordered pair of 13 section kinds x kind of last line x same/different paths x modes (unified, side-by-side, line numbers, decorations, navigate) and random longer sequences; byte-identical output over repeated runs under gitconfigs that exercise hash-map iteration, incl. --show-config.",
+  note="Trusted: Coq kernel; harness; model tie via check C01's correspondence. Hash-order dependence is detected probabilistically by repeated runs (>= 1-2^-7 per point in quick). No axioms.",
+  design="§6 C10"),
  "C11": dict(
   technique="Coq proof (monotone written output for all inputs and prefixes; lag invariant of the hunk handler from any state) + held-open-stdin correspondence after every input line + lag oracle on the binary's bytes",
   text="Machine-checked proofs: what has been written after any prefix is a prefix of the output for that prefix alone and for the whole input (C11_written_is_prefix, all inputs); after any hunk body line, from any state, the output buffer is empty and each line buffer holds at most line-buffer-size+1 lines (C11_lag_bound). Tie: the real binary is fed line by line with stdin held open; after each line (quiescence = main thread blocked in read(0) with the pipe drained) the visible rows written so far are compared with the extracted model's written items, and the lag/prefix oracle is evaluated on the bytes, in unified and side-by-side mode.",
